@@ -136,6 +136,39 @@ def _concrete_witness(rfs, subst, assume=()):
     return None
 
 
+LAST_WITNESS = {}
+
+
+def _compare_over_range(aw, bw, ac, bc, subst, assume):
+    fixed_k = next((v for s_, v in subst if s_ == 'k'), None)
+    ks = [int(fixed_k)] if fixed_k is not None else range(wlin.PARAM_RANGE['kmin'], wlin.PARAM_RANGE['kmax'] + 1)
+    if len(ks) > 70000:
+        return None
+    checked = 0
+    for k in ks:
+        ok = True
+        for kind, rf in assume:
+            val = wlin.eval_rf(_sub(rf, subst), k)
+            if val is None:
+                ok = None
+                break
+            if (kind == 'eq0' and val != 0) or (kind == 'ne0' and val == 0) or (kind == 'gt0' and not val > 0) or (kind == 'ge0' and not val >= 0):
+                ok = False
+                break
+        if ok is None:
+            return None
+        if not ok:
+            continue
+        vals = [wlin.eval_rf(x, k) for x in (aw, bw, ac, bc)]
+        if any(v is None for v in vals):
+            return None
+        checked += 1
+        if vals[0] != vals[1] or vals[2] != vals[3]:
+            LAST_WITNESS['k'] = k
+            return False
+    return True if checked else None
+
+
 def _same(a, b, subst, assume=()):
     if is_top(a) or is_top(b) or not isinstance(a, Aff) or not isinstance(b, Aff):
         return None
@@ -160,7 +193,8 @@ def _same(a, b, subst, assume=()):
             k, (x1, x2, y1, y2) = wit
             if x1 != x2 or y1 != y2:
                 return False
-        return None
+        # the length parameter has finitely many values: evaluate both sides (every symbol from its definition) at each accepted one
+        return _compare_over_range(aw, bw, ac, bc, subst, assume)
     except Abstain:
         return None
 
@@ -296,6 +330,9 @@ def analyse(m, impl, is_ma):
                             v.exempt.append('%s with %s' % (adt.rsplit('::', 1)[-1], EXEMPT_CUMULATIVE[adt.rsplit('::', 1)[-1]]))
                             v.proved_paths += 1
                             continue
+                        if bad and LAST_WITNESS.get('k') is not None:
+                            bad += ' (first length at which the two sides differ when every symbol is evaluated: %d)' % (MOD * LAST_WITNESS['k'] + r)
+                        LAST_WITNESS.clear()
                         if bad:
                             cond = '' if not sub else ' (configuration with %s)' % ', '.join('%s = %s' % (s, x) for s, x in sub)
                             v.wrong.append('%s, length = %d*k + %d%s: %s; %s' % (adt.rsplit('::', 1)[-1], MOD, r, cond, bad, '; '.join(problems[:3])))
